@@ -36,6 +36,7 @@ def run(ctx):
     r5_two_sided(ctx)
     r6_batch_unbatch(ctx)
     r7_sort_keys(ctx)
+    r8_cache_per_environment(ctx)
     c04.r6_replay_buffer(ctx, rule="C09.R1")
 
 
@@ -127,13 +128,16 @@ def r2_seed_only(ctx):
         f = ctx.fn(rel, qual)
         st = [x for x in walk_shallow(f) if isinstance(x, ast.Assign) and any(is_self_attr(t, "_seed") for t in x.targets)]
         ctx.ob("C09.R2", rel, qual, st[0] if st else f, "self._seed is the constructor's seed", len(st) == 1 and unparse(st[0].value) == "seed", stmt="self._seed store")
-    # environments.Shuffle: the documented seed change for logged data is a pure function of the seed
+    # environments.Shuffle: the documented seed change for logged data is a pure function of the seed, and the seed itself is never re-bound
     fn = ctx.fn(EF, "Shuffle.filter")
-    stores = [x for x in walk_shallow(fn) if isinstance(x, ast.Assign) and any(is_self_attr(t, "_seed") for t in x.targets)]
-    srcs = [v for x in stores if isinstance(x.value, ast.Name) for v in assigned_value(fn, x.value.id)]
-    ns = [v for v in srcs if unparse(v) != "self._seed"]
-    ok = len(ns) == 1 and {x.id for x in ast.walk(ns[0]) if isinstance(x, ast.Name)} <= {"self"}
-    ctx.ob("C09.R2", EF, "Shuffle.filter", ns[0] if ns else fn, "the seed used for logged data is a function of self._seed only", ok, stmt="new_seed")
+    stores = [x for x in ast.walk(fn) if isinstance(x, (ast.Assign, ast.AugAssign)) and any(is_self_attr(t, "_seed") for t in (x.targets if isinstance(x, ast.Assign) else [x.target]))]
+    ctx.ob("C09.R2", EF, "Shuffle.filter", stores[0] if stores else fn, "environments.Shuffle never re-binds its own seed while reading (overlapping or abandoned reads cannot disturb later ones)",
+           not stores, stmt="Shuffle.filter leaves self._seed alone")
+    gens = [c for c in walk_shallow(fn) if isinstance(c, ast.Call) and call_name(c) == "CobaRandom"]
+    for c in gens:
+        srcs = [c.args[0]] if c.args and not isinstance(c.args[0], ast.Name) else (assigned_value(fn, c.args[0].id) if c.args else [])
+        ok = bool(srcs) and all({x.id for x in ast.walk(v) if isinstance(x, ast.Name)} <= {"self"} and "self._seed" in unparse(v) for v in srcs)
+        ctx.ob("C09.R2", EF, "Shuffle.filter", c, "the seed used for logged data is a function of self._seed only", ok, stmt="new_seed")
 
 
 # ------------------------------------------------------------------------------------------ R3
@@ -386,6 +390,18 @@ def r6_batch_unbatch(ctx):
     ctx.ob("C09.R6", EF, "Batch._batched", bf, "one iterator is cut into consecutive chunks of n until it is empty", ok, stmt="_batched")
 
 
+def r8_cache_per_environment(ctx, rule="C09.R8"):
+    """Cache/Chunk are identities only if every environment has its own replay buffer."""
+    from . import c10
+    extra = {}
+    for (rel, cname, attr) in c04.BY_DESIGN:
+        if cname == "Cache":
+            extra.setdefault("Cache", []).append(attr)
+    c10.r5_stateful_not_shared(ctx, rule=rule, extra=extra,
+                               text="filters that keep by-design state between reads (the replay buffer of Cache, Densify's look-up table) are instantiated once per "
+                                    "environment by Environments.cache()/chunk()/dense(), never one instance shared through Environments.filter")
+
+
 def r7_sort_keys(ctx):
     ctx.rule("C09.R7", "Sort keeps the caller's key order: the keys are stored as given (flattened, not sorted/de-duplicated) and the sort key tuple "
                        "is built by iterating them in that order")
@@ -405,10 +421,12 @@ def r7_sort_keys(ctx):
 
 
 CONTROLS = [
+    ("one Cache object for all environments", "coba/environments/core.py", M.replace_expr("Environments.cache", "Environments([Pipes.join(env, Cache(25)) for env in self._envs])", "self.filter(Cache(25))"), "C09.R8"),
     ("Sort de-duplicates its keys", EF, M.replace_expr("Sort.__init__", "list(pipes.Flatten().filter([list(keys)]))[0]", "sorted(set(list(pipes.Flatten().filter([list(keys)]))[0]), key=str)"), "C09.R7"),
     ("Riffle keeps its generator", EF, M.chain(M.insert_after("Riffle.__init__", M.simple_has("self._seed = seed"), "self._rng = CobaRandom(seed)"),
                                                M.replace_stmt("Riffle.filter", M.simple_has("rng = CobaRandom(self._seed)"), "rng = self._rng")), "C09.R2"),
-    ("Shuffle seed not restored", EF, M.replace_stmt("Shuffle.filter", lambda st: isinstance(st, ast.Try), "yield from super().filter(interactions)\nself._seed = old_seed"), "C09.R2"),
+    ("Shuffle rewrites its seed while reading", EF, M.replace_stmt("Shuffle.filter", lambda st: isinstance(st, ast.Expr) and isinstance(st.value, ast.YieldFrom) and "new_seed" in ast.unparse(st),
+        "old_seed = self._seed\nself._seed = new_seed\ntry:\n    yield from super().filter(interactions)\nfinally:\n    self._seed = old_seed"), "C09.R2"),
     ("Where alters interaction", EF, M.replace_stmt("Where.filter", M.simple_has("yield interaction"), "interaction['context'] = None\nyield interaction"), "C09.R1"),
     ("Sort yields copies", EF, M.replace_expr("Sort.filter", "sorted(interactions, key=sorter)", "sorted(map(dict, interactions), key=sorter)"), "C09.R1"),
     ("Riffle unseeded", EF, M.replace_expr("Riffle.filter", "CobaRandom(self._seed)", "CobaRandom()"), "C09.R2"),
